@@ -39,15 +39,30 @@ def world():
     return {"phantoms": {"P1": "192.122.190.10", "P2": "192.122.190.11", "P3": "192.122.190.12", "P0": "192.122.190.9"}, "regs": regs}
 
 
-def gen_cases(ctx, thorough):
+def reorder(w, how, rng):
+    """The same registrations reached through a different HISTORY of register / validate / expire operations: the driver
+    creates registrations in list order (an expired one is registered, validated, aged and swept at its position)."""
+    regs = list(w["regs"])
+    if how == "expire-last":        # nothing is validated on the phantom after the sweep removed the expired ones
+        regs = [r for r in regs if r["state"] != "expired"] + [r for r in regs if r["state"] == "expired"]
+    elif how == "expire-first":
+        regs = [r for r in regs if r["state"] == "expired"] + [r for r in regs if r["state"] != "expired"]
+    elif how == "shuffle":
+        rng.shuffle(regs)
+    return dict(w, regs=regs)
+
+
+def gen_cases(ctx, thorough, w=None, tag="", sections=(1, 2, 3, 4, 5)):
     rng = ctx.rng
-    w = world()
+    w = w or world()
     cases = []
     n = [0]
 
     def add(st, cuts=(), dst="P1", **kw):
         n[0] += 1
-        cases.append(cc.case("c02-%d" % n[0], dst, st, cuts, **kw))
+        if add.section in sections:
+            cases.append(cc.case("c02%s-%d" % (tag, n[0]), dst, st, cuts, **kw))
+    add.section = 1
 
     px = {"rpx1": 1, "rpx0": 0, "rpx9": 9, "rshare_px": 3, "rpx5_p2": 5, "rtr_px": 4, "rexp_px": 2, "rnil": 0}
     home = {r["name"]: r["phantom"] for r in w["regs"]}
@@ -58,6 +73,7 @@ def gen_cases(ctx, thorough):
             kw["client_px"] = px[r["name"]]
         for dst in ("P0", "P1", "P2", "P3"):
             add(cc.stream(**kw), [rng.randrange(1, 30)], dst=dst)
+    add.section = 2
     # 2. produced for another transport / another prefix than the one registered
     for frm, ct in (("rmin", "prefix"), ("rmin", "obfs4"), ("rpx1", "min"), ("rpx1", "obfs4"), ("robfs", "min"), ("robfs", "prefix"),
                     ("rshare_min", "prefix"), ("rshare_px", "min")):
@@ -71,6 +87,7 @@ def gen_cases(ctx, thorough):
     # a prefix registration without parameters names no prefix: no prefix's flight may open it
     for cpx in (0, 1, 9):
         add(cc.stream(**{"from": "rnil", "client_px": cpx, "early": 24}), [5], dst="P3")
+    add.section = 3
     # 3. altered anywhere in the tag
     min_bits = range(256) if thorough else rng.sample(range(256), 64)
     for b in min_bits:
@@ -87,11 +104,13 @@ def gen_cases(ctx, thorough):
         add(cc.stream(**{"from": "robfs", "flip": b}), [100], dst="P1")
     for be in rng.sample(range(0, 16 * 8), k) + rng.sample(range(16 * 8, 32 * 8), k) + rng.sample(range(40 * 8, 60 * 8), k):
         add(cc.stream(**{"from": "robfs", "flip_end": be}), [100], dst="P1")
+    add.section = 4
     # 4. truncated at every length (min) / at structural boundaries (prefix)
     for t in (range(1, 32) if thorough else (1, 16, 31)):
         add(cc.stream(**{"from": "rmin", "trunc": t}), [], dst="P1")
     for t in (15, 16, 17, 47, 79):
         add(cc.stream(**{"from": "rpx1", "client_px": 1, "trunc": t}), [], dst="P1")
+    add.section = 5
     # 5. random byte streams against the populated phantoms
     for L in (32, 64, 80, 200, 8192):
         for dst in ("P1", "P2"):
@@ -113,6 +132,14 @@ def run(ctx):
     B = 450
     for i in range(0, len(cases), B):
         results += cc.run_cases(ctx, [(w, cases[i:i + B])], par=B)
+    # the same registry contents reached through other histories (order of register / validate / expire+sweep operations):
+    # the registry-state-sensitive cases (unaltered flights to every phantom, other transport / prefix) are repeated on each
+    hist = ["expire-last", "shuffle"] + (["expire-first", "shuffle", "shuffle"] if thorough else [])
+    for hi, how in enumerate(hist):
+        w2 = reorder(w, how, ctx.rng)
+        _, c2 = gen_cases(ctx, thorough, w=w2, tag="h%d" % hi, sections=(1, 2))
+        results += cc.run_cases(ctx, [(w2, c2)], par=B)
+    ctx.stage("C", histories=["list-order"] + hist)
     summary = cc.validate(ctx, "C02", results, "c02")
     nmatch = sum(1 for (_, _, r) in results if r["final"].get("matched"))
     should = 0
